@@ -149,20 +149,27 @@ def implied(text, table0, prefixes, nbase):
             return ('n', Fraction(n.value), [0] * nbase)
         if isinstance(n, ast.UnaryOp):
             k, f, p = go(n.operand)
-            return (k, -f, p)
+            return (k, None if f is None else -f, p)
         a, b = go(n.left), go(n.right)
         if isinstance(n.op, ast.Mult):
-            return ('u' if 'u' in (a[0], b[0]) else 'n', a[1] * b[1], [x + y for x, y in zip(a[2], b[2])])
+            return ('u' if 'u' in (a[0], b[0]) else 'n', None if None in (a[1], b[1]) else a[1] * b[1],
+                    [x + y for x, y in zip(a[2], b[2])])
         if isinstance(n.op, ast.Div):
-            return ('u' if 'u' in (a[0], b[0]) else 'n', a[1] / b[1], [x - y for x, y in zip(a[2], b[2])])
+            return ('u' if 'u' in (a[0], b[0]) else 'n', None if None in (a[1], b[1]) else a[1] / b[1],
+                    [x - y for x, y in zip(a[2], b[2])])
         if isinstance(n.op, ast.Pow):
             e = b[1]
             if b[0] != 'n':
                 raise KeyError('unit exponent')
             if e.denominator == 1:
-                return (a[0], a[1] ** int(e), [x * int(e) for x in a[2]])
-            inv = Fraction(int(math.floor(float(1 / e) + 0.5)))   # inverse-integer power: only the dimension is implied
-            return (a[0], None, [Fraction(x) / inv for x in a[2]])
+                return (a[0], None if a[1] is None else a[1] ** int(e), [x * int(e) for x in a[2]])
+            inv = Fraction(int(math.floor(float(1 / e) + 0.5)))   # inverse-integer power
+            # the implied factor is the inv-th root of the part's factor (irrational in general): taken in
+            # binary64 and compared with the relative tolerance of rel_close
+            root = None
+            if a[1] is not None and a[1] > 0 and inv != 0:
+                root = Fraction(float(a[1]) ** (1.0 / float(inv)))
+            return (a[0], root, [Fraction(x) / inv for x in a[2]])
         raise KeyError('op')
     return go(tree)
 
